@@ -130,10 +130,12 @@ class C07(Engine):
                                     {"iteration": k, "where": where}))
                 break
             prev_after = after
-        if o.get("outcome") == "verdict" or (o.get("end") == "exit" and o.get("reports")):
+        reported = [f for rep in o.get("reports") or [] for f in rep["files"]]
+        if o.get("outcome") == "verdict" or (o.get("end") == "exit" and reported):
             left = pops[-1][2] if pops else n
             if left:
-                vs.append(Violation(self.prop, "C07.I1-covers-whole-file", f"run ended normally with {left} tokens not consumed", {"where": where}))
+                vs.append(Violation(self.prop, "C07.I1-covers-whole-file", "a verdict was reached with tokens left unconsumed",
+                                    {"where": where, "left": left}))
         return vs
 
     def judge(self, sc, res, refs):
@@ -177,11 +179,10 @@ class C07(Engine):
             if unmatched and o.get("end") not in ("internal", "hang", "slow", "invalid-scenario"):
                 out = strip_ansi(o.get("stdout", ""))
                 name = sc["ops"][0]["argv"][-1]
-                fatal = (not o.get("reports")) and f"{name}: Error!\n\t" in out and isinstance(o.get("exit"), int) and o.get("exit") != 0
+                reported = [f for rep in o.get("reports") or [] for f in rep["files"]]
+                fatal = (not reported) and f"{name}: Error!\n\t" in out and isinstance(o.get("exit"), int) and o.get("exit") != 0
                 if not fatal:
-                    verdict = None
-                    if o.get("reports"):
-                        verdict = o["reports"][0]["files"][0]["status"] if o["reports"][0]["files"] else None
+                    verdict = reported[0]["status"] if reported else None
                     where = "at end of file without newline" if (sc.get("at_eof") and not sc.get("nl")) else \
                             ("at end of file" if sc.get("at_eof") else "inside the file")
                     vs.append(Violation(self.prop, "C07.I4-no-silent-drop",
